@@ -20,26 +20,17 @@ where
     Ok(T::deserialize(de).unwrap_or_default())
 }
 
-#[derive(Debug, Default)]
+/// An element of a list whose unknown entries are dropped.
+///
+/// As an untagged enum the element is first read completely into a buffer, then tried as a `T` and
+/// otherwise ignored. An element that is not a `T` is therefore skipped as a whole wherever in it
+/// the mismatch is, and an input that ends or is malformed inside the element is an error instead
+/// of an "unknown value" (which made a truncated list cost one iteration per declared element).
+#[derive(Debug, Deserialize)]
+#[serde(untagged)]
 enum PossiblyUnknown<T> {
     Some(T),
-    #[default]
-    None,
-}
-
-impl<'de, T> Deserialize<'de> for PossiblyUnknown<T>
-where
-    T: Deserialize<'de>,
-{
-    fn deserialize<D>(de: D) -> Result<Self, D::Error>
-    where
-        D: Deserializer<'de>,
-    {
-        Ok(match T::deserialize(de) {
-            Ok(val) => Self::Some(val),
-            Err(_) => Self::None,
-        })
-    }
+    None(serde::de::IgnoredAny),
 }
 
 pub(crate) fn ignore_unknown_opt_vec<'de, D, T>(de: D) -> Result<Option<Vec<T>>, D::Error>
